@@ -297,7 +297,10 @@ def safeCall (fx : Fixes) (L : Learner) (method : Option Nat) (arg : Arg) : Exce
 /-- the calls `_safe_call` makes to the learner (for "once per row") -/
 def safeCallTrace (fx : Fixes) (L : Learner) (method : Option Nat) (arg : Arg) : List Arg :=
   match arg with
-  | .single .. => [arg]
+  | .single .. =>
+    match method with
+    | some 2 => []       -- `_method2` zips an unbatched (context, actions): a scalar context raises before any call (not modelled further)
+    | _ => [arg]
   | .batch ctxs rows =>
     match method with
     | some 1 => [arg]
@@ -686,7 +689,16 @@ def parse (fx : Fixes) (st : State) (sarg : Arg) (pred : PyVal) : Except Err (Re
     | .col, .batch _ rows => do
       let (r, s') ← parseCol fx st f rows pred
       pure (r, { st with rng := s' })
-    | _, _ => .error .other      -- batched and unbatched calls are never mixed on one SafeLearner
+    -- a wrapper that is switched between batched and unbatched calls keeps the layout memoised on its FIRST call:
+    | .not, .batch _ rows => do            -- the whole batch answer is parsed as one unbatched answer
+      let (r, s') ← parseNot st f (rows.map (fun r => PyVal.list .tmp r)) pred
+      pure (r, { st with rng := s' })
+    | .row, .single _ _ => do              -- one answer is parsed as a row-major batch of answers (PMF formats not modelled)
+      let (r, s') ← parseRow st f [] pred
+      pure (r, { st with rng := s' })
+    | .col, .single _ _ => do
+      let (r, s') ← parseCol fx st f [] pred
+      pure (r, { st with rng := s' })
   | _, _ => .error .other
 
 /-- the rest of `predict`, on the argument the learner is given -/
@@ -1257,5 +1269,89 @@ def runOne (fx : Fixes) (L : Learner) : State → List Arg → List (Except Err 
     match predict fx L s a with
     | .ok (r, s') => .ok r :: runOne fx L s' h
     | .error e => .error e :: runOne fx L s h
+
+end Coba.C15
+
+namespace Coba.C15
+
+/-! ### `has_score` and the error paths of `score`: the exception TEXT decides -/
+
+def isPrefixL : List Char → List Char → Bool
+  | [], _ => true
+  | _ :: _, [] => false
+  | a :: as, b :: bs => a == b && isPrefixL as bs
+
+def isInfixL (p : List Char) : List Char → Bool
+  | [] => p.isEmpty
+  | c :: cs => isPrefixL p (c :: cs) || isInfixL p cs
+
+/-- Python `sub in s` -/
+def strContains (s sub : String) : Bool := isInfixL sub.toList s.toList
+
+/-- what `learner.score(...)` does when it does not return: the exception's class (AttributeError or not) and `str(ex)` -/
+structure ScoreFailure where
+  attr : Bool
+  msg : String
+deriving Repr, DecidableEq
+
+/-- the probe `self.learner.score(None,None,None)` of `has_score` -/
+inductive ScoreProbe
+  | returns
+  | raises (f : ScoreFailure)
+deriving Repr
+
+/-- `SafeLearner.has_score`: `"score" not in str(ex)` -/
+def hasScore : ScoreProbe → Bool
+  | .returns => true
+  | .raises f => !strContains f.msg "score"
+
+/-- the exception `SafeLearner.score` ends with when the learner's `score` raised `f`: an AttributeError whose text contains
+`'score'` (with the quotes) becomes CobaException("The `score` method is not implemented"), anything else passes -/
+def scoreRaises (f : ScoreFailure) : Err :=
+  if f.attr && strContains f.msg "'score'" then .coba else if f.attr then .attr else .learner
+
+/-- `SafeLearner.score` with the error paths: `S = none` is a learner without a `score` attribute (CPython raises
+AttributeError "'T' object has no attribute 'score'" when the bound method is looked up); a scorer that raises does so
+with `fail` -/
+def scoreFull (fx : Fixes) (S : Option Scorer) (fail : ScoreFailure) (method : Option Nat) (arg : SArg) : Except Err (PyVal × Nat) :=
+  match S with
+  | Option.none => .error .coba
+  | some S =>
+    match score fx (some S) method arg with
+    | .error .learner => .error (scoreRaises fail)
+    | x => x
+
+end Coba.C15
+
+namespace Coba.C15
+
+/-- what kind of `score` a learner has -/
+inductive ScoreKind
+  /-- no `score` attribute at all (class name `cls`) -/
+  | absent (cls : String)
+  /-- inherits `coba.primitives.Learner.score` (raises NotImplementedError) -/
+  | base
+  /-- implements `score`; `probe` is what it does on `(None, None, None)` -/
+  | implemented (probe : ScoreProbe)
+deriving Repr
+
+def probeOf : ScoreKind → ScoreProbe
+  | .absent cls => .raises ⟨true, "'" ++ cls ++ "' object has no attribute 'score'"⟩
+  | .base => .raises ⟨false, "The `score` interface has not been implemented for this learner."⟩
+  | .implemented p => p
+
+end Coba.C15
+
+namespace Coba.C15
+
+/-- what one sees of a run: per call whether the "action" returned is a string, its length, and whether the "probability"
+is a sequence (used by the witnesses about wrappers switched between batched and unbatched calls) -/
+def obsRun (x : Except Err (List Result)) : Except Err (List (Bool × Nat × Bool)) :=
+  x.map (fun rs => rs.map (fun r => (r.a.isStr, r.a.len, r.p.hasLen)))
+
+/-- values on which Python's `==` is decided without looking inside containers -/
+def isScalar : PyVal → Bool
+  | .none | .bool _ | .int _ | .flt _ _ | .str _ _ => true
+  | _ => false
 
 end Coba.C15
